@@ -48,6 +48,19 @@ pub fn strategy() -> BoxedStrategy<Case> {
                     Some(HolderKey::EcKid) => op.holder = HolderKey::Ec,
                     _ => {}
                 },
+                // the very claims of the previous call once more (a retry after a failure, a second
+                // copy in the other format, a batch): other strategy / format / decoys as drawn
+                3 | 4 => {
+                    if let Some(p) = ops.last() {
+                        op.claims = p.claims.clone();
+                        op.holder = p.holder;
+                        if bits & 16 != 0 {
+                            op.strat = p.strat.clone();
+                        } else if let sdjwt_model::tree::Strat::Custom(_) = op.strat {
+                            op.strat = sdjwt_model::tree::Strat::AllLevels;
+                        }
+                    }
+                }
                 // a call whose own result is unspecified (user claim cnf AND a holder key); later
                 // calls must be unaffected
                 2 if op.claims.is_object() => {
